@@ -89,16 +89,27 @@ def _gen(job):
     return sorted(set(C.generate(g(), count, seed)))
 
 
+def check_witness(data, show=False):
+    w = data["witness"]
+    m = O.period_closed_form(w["s"], w["c8"][0], w["c8"][2], w["c8"][3])
+    out = _one(w["s"], w["c8"], w["n"], m)
+    if show:
+        print("replaying %s, closed-form period m=%d" % (C.describe(w), m))
+    seen = set()
+    res = []
+    for pred, detail in out["viol"]:
+        if pred not in seen:
+            seen.add(pred)
+            res.append((("PeriodicDiskRevolve", pred), w, detail, "config"))
+    return res
+
+
 def run(prop, args):
     rep = R.Report(prop, args, RULE)
     if args.replay:
-        w = R.load_replay(args.replay)["witness"]
-        m = O.period_closed_form(w["s"], w["c8"][0], w["c8"][2], w["c8"][3])
-        out = _one(w["s"], w["c8"], w["n"], m)
         rep.evaluations = 1
-        print("replaying %s, closed-form period m=%d" % (C.describe(w), m))
-        for pred, detail in out["viol"]:
-            rep.add_violation(("PeriodicDiskRevolve", pred), w, detail)
+        for b, w, d, k in check_witness(R.load_replay(args.replay), show=True):
+            rep.add_violation(b, w, d, kind=k)
         return rep.finish()
     tier = args.tier
     # closed form sanity: integer-ratio boundary cases are where <= vs < matters; make sure the grid contains them
@@ -139,6 +150,7 @@ def run(prop, args):
                 if pred not in seen:
                     seen.add(pred)
                     rep.add_violation(("PeriodicDiskRevolve", pred), cfg, detail)
+    R.run_regress(rep, check_witness)
     rep.count("regions", "cost-vectors", len(res))
     rep.count("regions", "cost-vectors-on-closed-form-boundary", boundary)
     rep.assumptions = ["'more than m steps remain' read in units l = n-1 as in Aupy & Herrmann and in the code (DESIGN C19)",
